@@ -1,7 +1,7 @@
 (* C10 — Delayed reactions deliver their delayed part exactly once, after the delay. *)
 From Coq Require Import ZArith Reals List Bool Arith.
 From BS Require Import Base.Arith Model.Term Model.Interface Model.Rules Model.Random Model.Queue Model.SSA
-                       Proofs.DelayProofs Proofs.QueueProofs Proofs.QueueHistory.
+                       Proofs.DelayProofs Proofs.QueueProofs Proofs.QueueHistory Proofs.DelayAccounting.
 Import ListNotations.
 
 (* One iteration of the delay-capable loop (any arithmetic, stream, network): on the rule-updated
@@ -48,12 +48,31 @@ Theorem C10_marsaglia_tsang_form : forall fuel k theta u pos,
     else gamma_loop ArithR (2 * PI)%R fuel d c theta u (S (S (S pos))).
 Proof. exact marsaglia_tsang_round. Qed.
 
-(* Not mechanised (C10_partial): the whole-run accounting identity x = x0 + S n + Sd (n - pending),
-   equality in distribution with the plain simulator at zero delay (rests on memorylessness, C05),
-   and that Box-Muller / Marsaglia-Tsang have the Normal / Gamma laws (classical analysis). *)
+(* Whole-run accounting (reals; every stream, grid, fuel, network, queue size; no rules): when the
+   delay-capable simulator returns, there are per-reaction counts n (firings), d (delayed parts applied)
+   and a table pq of what is still queued with
+       final state = x0 + sum_r n_r S[:,r] + sum_r d_r Sd[:,r],
+       the queue's cell (off, r) holds exactly pq off r,       n_r = d_r + sum_off pq off r,
+   i.e. every firing's delayed part has been applied exactly once or is pending exactly once; and every
+   reported row is such a point with d_r <= n_r. *)
+Theorem C10_whole_run_accounting :
+  forall (s : sim R) ncols fuel gfuel qdt qt ts u pos st,
+  sm_rules s = [] -> length (sm_x0 s) = length (si_S (sm_if s)) -> length (si_S (sm_if s)) = length (si_Sd (sm_if s)) ->
+  (0 < ncols)%nat ->
+  dssa_simulate ArithR (2 * PI)%R fuel gfuel s (q_make ArithR 0%R (length (si_props (sm_if s))) ncols qdt qt) ts u pos = Done st ->
+  Forall (lattice s) (ds_rows st) /\
+  exists n d pq, at_point s (ds_x st) n d /\
+    (forall off r, (off < ncols)%nat -> (r < length (si_props (sm_if s)))%nat -> q_pending 0%R (ds_q st) off r = INR (pq off r)) /\
+    (forall r, (r < length (si_props (sm_if s)))%nat -> n r = (d r + sumN (fun off => pq off r) ncols)%nat).
+Proof. intros s ncols fuel gfuel qdt qt ts u pos st H1 H2 H3. exact (delay_run_accounting s H1 H2 H3 ncols fuel gfuel qdt qt ts u pos st). Qed.
+
+(* Not mechanised (C10_partial): rule-carrying models in the whole-run statement, equality in distribution
+   with the plain simulator at zero delay (rests on memorylessness, C05), and that Box-Muller /
+   Marsaglia-Tsang have the Normal / Gamma laws (classical analysis). *)
 
 Print Assumptions C10_iteration_steps.
 Print Assumptions C10_queue_delivers_exactly_once.
 Print Assumptions C10_fixed_delay.
 Print Assumptions C10_box_muller_form.
 Print Assumptions C10_marsaglia_tsang_form.
+Print Assumptions C10_whole_run_accounting.
